@@ -57,7 +57,7 @@
 EXTENDS TranslateSrc, Json, IOUtils
 
 CONSTANTS AsImplemented,   \* model the pinned code's deviations
-          SourceSet,       \* which sources to enumerate: "patterns", "faults", "perms", "faultperms", "alias", "all",
+          SourceSet,       \* which sources to enumerate: "patterns", "faults", "perms", "faultperms", "alias", "aliasperms" (every permutation of the type-alias patterns), "all",
                            \* "layouts" (patterns x Layouts), "layoutfaults" (their faults x Layouts)
           PermAllUpTo      \* sources up to this length are permuted in every way
 
@@ -280,6 +280,7 @@ AllSources ==
     [] SourceSet = "layoutfaults" -> UNION {RefFaults(Patterns[k]) \cup DupFaults(Patterns[k]) : k \in LayoutFaultPatterns}
     [] SourceSet = "alias"    -> {AliasPatterns[k] : k \in 1..Len(AliasPatterns)}
                                   \cup UNION {RefFaults(AliasPatterns[k]) : k \in 1..Len(AliasPatterns)}
+    [] SourceSet = "aliasperms" -> UNION {Perms(AliasPatterns[k]) : k \in 1..Len(AliasPatterns)}
     [] SourceSet = "all"      -> PatternSet \cup UNION {RefFaults(s) \cup DupFaults(s) \cup ClashFaults(s) \cup QuotedFaults(s) \cup DelFaults(s) \cup NumeralFaults(s) \cup DupZeroFaults(s) \cup CrossFaults(s) \cup EmptyQuotedFaults(s) \cup ModLocalFaults(s) \cup WideIdFaults(s) : s \in PatternSet}
                                   \cup {AliasPatterns[k] : k \in 1..Len(AliasPatterns)}
 
